@@ -63,7 +63,18 @@ func (e *enumOps) unmarshal(text string) (uint64, error) {
 		if !ok {
 			return 0, fmt.Errorf("type *%s does not implement encoding.TextUnmarshaler", e.reg.Type)
 		}
-		err := tu.UnmarshalText([]byte(text))
+		// the text is the caller's: a window into a larger buffer (a line of a file, the input of a JSON decoder) whose
+		// neighbouring bytes are somebody else's - parsing reads the window and writes nothing
+		backing := make([]byte, len(text)+2+k)
+		for i := range backing {
+			backing[i] = 0xA5
+		}
+		copy(backing[1:], text)
+		snapshot := string(backing)
+		err := tu.UnmarshalText(backing[1 : 1+len(text)])
+		if string(backing) != snapshot {
+			return 0, fmt.Errorf("UnmarshalText(%q) wrote to the caller's buffer: the text sat at [1:%d] of a %d-byte array that read %x before the call and reads %x after it", text, 1+len(text), len(backing), snapshot, backing)
+		}
 		got := ptr.Elem().Uint()
 		if k == 0 {
 			first, firstErr = got, err
